@@ -8,6 +8,9 @@
    Two tables are redundant with the model and are cross-checked here: w_days carries the real utcDayEnd
    (the model computes start + 24h) and w_nums the real Condition.ValueAsNumber result (the model has
    [value_number] = [parse_dec] + the exponent bound). *)
+(* Note: trees built with NewCondition (the column k_raw) have no remembered date format, parsed ones (k_parsed) have the
+   parsing environment's (fix 6978ee3); both are compared against the same e_day_start table, which is right because
+   the harness evaluates in the environment it parses in. *)
 From Coq Require Import List NArith ZArith Bool.
 From Verif Require Import model.CqlEval.
 Import ListNotations.
